@@ -695,4 +695,6 @@ func TestC14(t *testing.T) {
 	h.Run(c, "types", c.N(3000, 20000), genTypes, oracleTypes)
 	c.Rule("interleave: two environments take turns running small programs (closures over parameters and locals of finished calls made in nested blocks, closures stored through the enclosing scope, loops that change the map they walk, modules, recursion with deferred calls; later turns use what earlier ones left); every environment must get the results it gets when its programs run alone, and the whole sequence the same results when repeated; non-trivial = both environments ran and A ran at least twice")
 	h.Run(c, "interleave", c.N(3000, 20000), genInterleave, oracleInterleave)
+	c.Rule("importtypes: an environment 1-3 scopes below a base imports one of the bundled packages that has a type table (four spellings: assigned, bare, inside a function, twice); afterwards a type name of that package must be unknown (Env.Type and `make(T)` both fail) in a sibling under the same base, in the base, in a grandchild of the base and in an unrelated root; non-trivial = the import ran")
+	h.Run(c, "importtypes", c.N(1500, 15000), genImportTypes, oracleImportTypes)
 }
